@@ -1569,8 +1569,9 @@ func (v *VMValue) ComputedExecute(ctx *Context, detail *BufferSpan) *VMValue {
 	if cd.code == nil {
 		// Parse 会将 NumOpCount 清零，此处需保留调用者累计的算力，否则还原出来的函数/计算值可以无限递归
 		opCount := vm.NumOpCount
-		if err := vm.Parse(cd.Expr); err == nil {
-			vm.NumOpCount = opCount
+		err := vm.Parse(cd.Expr)
+		vm.NumOpCount = opCount // 解析失败时同样要保留: 失败的子执行把自己的计数交还给调用者，清零的计数会让调用者此前的消耗一笔勾销
+		if err == nil {
 			_ = vm.RunAfterParsed()
 		}
 		cd.code = vm.code
@@ -1672,8 +1673,9 @@ func (v *VMValue) FuncInvokeRaw(ctx *Context, params []*VMValue, useUpCtxLocal b
 	} else if cd.code == nil {
 		// Parse 会将 NumOpCount 清零，此处需保留调用者累计的算力，否则还原出来的函数/计算值可以无限递归
 		opCount := vm.NumOpCount
-		if err := vm.Parse(cd.Expr); err == nil {
-			vm.NumOpCount = opCount
+		err := vm.Parse(cd.Expr)
+		vm.NumOpCount = opCount // 解析失败时同样要保留: 失败的子执行把自己的计数交还给调用者，清零的计数会让调用者此前的消耗一笔勾销
+		if err == nil {
 			_ = vm.RunAfterParsed()
 		}
 		cd.code = vm.code
